@@ -1,1 +1,4 @@
 // hook file for ntpd/src/daemon/nts_key_provider.rs: declares the per-property harness modules
+#[cfg(any(verif_all, verif_c27))]
+#[path = "/verif/harness/ntpd/c27.rs"]
+mod c27;
